@@ -36,12 +36,13 @@
 (* an `except Z:` block of the caller (`outer`): sys.exc_info() then shows  *)
 (* Z, bare raise re-raises it and new exceptions chain to it.               *)
 (*                                                                          *)
-(* TLC states are (program, outer) cases.  Programs GROW: Next puts a leaf  *)
-(* or a fresh compound statement into a hole (nop) whose block the current  *)
-(* program actually executes, so no case differs from another only in dead  *)
-(* code.  Every state carries the expected observation, computed from       *)
-(* scratch, and publishes it for the binding (B1, three-way against CPython *)
-(* and Cython-compiled code).                                               *)
+(* TLC states are programs.  Programs GROW: Next puts a leaf or a fresh     *)
+(* compound statement into a hole (nop) whose block the current             *)
+(* program actually executes (growing dead code would only multiply cases   *)
+(* with the same behaviour; a block can still become dead by a LATER step). *)
+(* Every state carries the expected observation, computed from scratch, for *)
+(* both kinds of call and publishes it for the binding (B1, three-way       *)
+(* against CPython and Cython-compiled code).                               *)
 EXTENDS Integers, Sequences, FiniteSets, TLC, Json
 
 CONSTANTS MaxDepth,   \* nesting depth of compound statements (seq does not count)
